@@ -178,7 +178,7 @@ DecHandshake(b, o, e) ==
 
 EncOpt16(x) == IF x = None THEN <<>> ELSE BE16(Len(x[1])) \o x[1]
 EncSid(sid) == IF sid = None THEN <<0>> ELSE <<Len(sid[1])>> \o sid[1]
-EncU16s(xs) == Concat([i \in 1..Len(xs) |-> BE16(xs[i])])
+EncU16s(xs) == [k \in 1..(2 * Len(xs)) |-> IF k % 2 = 1 THEN (xs[(k + 1) \div 2] \div 256) % 256 ELSE xs[k \div 2] % 256]
 
 HsTypeCode(v) ==
   CASE v.t = "HelloRequest" -> 0 [] v.t = "ClientHello" -> 1 [] v.t = "ServerHello" -> 2
